@@ -23,6 +23,8 @@ type Variant struct {
 	Dom    map[string]Dom   // atom domains (the values the property quantifies over)
 	Bind   map[string]int64 // atoms bound to constants (discriminators); width from Dom or 8
 	BindBits map[string]map[int]bool // single bits bound (flag partitions)
+	Not      []string                // predicate keys assumed false ("v.EventType == 26")
+	Nil      []string                // lazily symbolic pointers/interfaces that are nil in this variant
 	Assume []*abs.Lin       // extra constraints, each >= 0
 	Spec   []abs.SegSpec    // the layout
 	// decoder direction: expected results
@@ -69,6 +71,12 @@ func (v *Variant) apply(p *abs.Path) {
 		for i, b := range m {
 			p.BindBit(a, i, b)
 		}
+	}
+	for _, k := range v.Not {
+		p.Assumed[k] = false
+	}
+	for _, n := range v.Nil {
+		p.NilNames[n] = true
 	}
 	for _, l := range v.Assume {
 		p.AssumeLin(l)
